@@ -99,7 +99,7 @@ def load_all(specdir):
                 u['sections'][k] = v
         for k in ('backend', 'flags', 'records', 'typemap', 'tu', 'filter', 'decl', 'records_tu', 'timeout', 'cost', 'self', 'callmap',
                   'enums', 'membermap', 'opmap', 'replace', 'uses', 'mode', 'kind', 'class', 'identity_methods', 'token_types',
-                  'zero_init_types', 'cellset_types', 'globals', 'enum_types', 'inline', 'byref_types', 'unwind', 'cap', 'abstract', 'static', 'members'):
+                  'zero_init_types', 'cellset_types', 'globals', 'enum_types', 'inline', 'byref_types', 'unwind', 'cap', 'abstract', 'static', 'members', 'triage_cap'):
             if k not in u and k in base:
                 u[k] = base[k]
         done.add(u['name'])
